@@ -99,7 +99,7 @@ ITEMS = [
                     "    open spec fn got(self, c: VCall) -> bool { self.0.got(forced(c, FLAGS::flag())) }\n"),
     dict(kind="fn", file=F, inside_fn=_IN, impl=_W, name="metric", label="ForceFlag::Wrapper::metric", impl_trait_args=True, rules={"R14": 2},
          proofs=[("start", None,
-                  "let ghost verif_f0 = flag_id(flags); let ghost verif_u0 = unit; let ghost verif_d0 = distribution.elems(); let ghost verif_m0 = dims_view(dimensions.elems());"),
+                  "let ghost verif_f0 = flag_id($arg3); let ghost verif_u0 = $arg1; let ghost verif_d0 = $arg0.elems(); let ghost verif_m0 = dims_view($arg2.elems());"),
                  ("end", None,
                   """proof {
                         let f2 = merged_flags(verif_f0, FLAGS::flag());
